@@ -2163,7 +2163,27 @@ fn c03_feed(desc: &str, sess: &mut Either, pieces: &[&[u8]]) {
         }
     }
 }
+// well-formed commands with BOUNDARY message stream ids, the application accepting whatever is raised: publish / play on a stream id
+// the peer chose itself (never created), then closeStream / deleteStream / createStream again.  No call may panic or hang (Err is fine
+// for accept_request; handle_input must cope with every one of these well-formed messages).
+fn c03_boundary_streams() {
+    for &sid in &[0u32, 1, 2, 3, 0x7FFF_FFFF, 0x8000_0000, 0xFFFF_FFFE, 0xFFFF_FFFF] { for creates in 0..3u32 { for is_pub in [true, false] { for with_close in [false, true] {
+        let mut x = Srv::new();
+        let r = x.connect("live", 1.0); let ids: Vec<u32> = r.ev.iter().filter_map(sreq_id).collect(); for id in ids { let _ = x.accept(id); }
+        for k in 0..creates { let _ = x.create(2.0 + k as f64); }
+        let r = if is_pub { x.publish(sid, "k") } else { x.play(sid, "k") };
+        let ids: Vec<u32> = r.ev.iter().filter_map(sreq_id).collect(); for id in ids { let _ = x.accept(id); }
+        let _ = x.media(sid, 0);
+        if with_close { let _ = x.close(sid); }
+        let _ = x.delete(sid);
+        let _ = x.create(9.0);
+        let _ = x.media(sid, 1);
+        let _ = x.delete(sid.wrapping_add(1)); let _ = x.close(sid.wrapping_sub(1));
+        let _ = x.create(10.0);
+    } } } }
+}
 fn mode_c03(seed: u64) {
+    c03_boundary_streams();
     let cases = c03_cases();
     let states = |kind: &str, st: usize| -> &'static str { match (kind, st) { (_, 0) => "fresh", ("server", 1) => "publishing", ("server", _) => "playing", (_, 1) => "playing", _ => "publishing" } };
     for kind in ["server", "client"] { for st in 0..3usize { for (name, ty, msid, data) in &cases {
